@@ -8,7 +8,7 @@ from typing import Dict, List, Optional, Set, Tuple
 from ..core import astutil as A
 from ..core.index import AnalysisError, FuncInfo
 from ..selftest import M
-from .common import T, attr_stores, calls_named, conds, every_origin, facts, need, subscript_stores, where
+from .common import may_conds, is_early_exit_guard, T, attr_stores, calls_named, conds, every_origin, facts, need, subscript_stores, where
 from . import c01, c02
 
 TR = "ufo2ft.filters.transformations"
@@ -220,7 +220,7 @@ def r155(prog, chk):
            message=f"{f.short}: anchors are not all mapped through the matrix as points")
     wv = [s for s in A.stmts_of(f.node) if isinstance(s, ast.Assign) and isinstance(s.value, ast.Call) and isinstance(s.value.func, ast.Attribute) and s.value.func.attr == "transformVector"]
     g = f.params()[1]
-    ok = len(wv) == 1 and T(wv[0].targets[0]) == f"({g}.width, {g}.height)" and T(wv[0].value.args[0]) == f"({g}.width, {g}.height)" and not conds(prog, f, wv[0])[1:]
+    ok = len(wv) == 1 and T(wv[0].targets[0]) == f"({g}.width, {g}.height)" and T(wv[0].value.args[0]) == f"({g}.width, {g}.height)" and not [c_ for c_ in may_conds(prog, f, wv[0]) if not is_early_exit_guard(prog, f, c_)]
     chk.ob("R15.5", f"{f.short}|advance width and height are mapped as a vector (offsets do not apply)", ok, where(f, wv[0]) if wv else where(f), detail="glyph.width, glyph.height = matrix.transformVector((glyph.width, glyph.height))",
            message=f"{f.short}: the advance is not mapped with transformVector (a translation would widen every glyph, or the advance is not scaled)")
     # pen compensation
@@ -237,7 +237,7 @@ def r155(prog, chk):
     init = tp.methods["__init__"]
     ok = any(T(v) == "self._transformation.inverse()" for s, t, v in attr_stores(init, "_inverted"))
     sup = [c for c in A.body_nodes(ac.node) if isinstance(c, ast.Call) and "super()" in T(c.func) and c.func.attr == "addComponent"]
-    oks = len(sup) == 1 and not conds(prog, ac, sup[0]) and T(sup[0].args[1]) == ac.params()[2]
+    oks = len(sup) == 1 and not may_conds(prog, ac, sup[0]) and T(sup[0].args[1]) == ac.params()[2]
     chk.ob("R15.5", f"{tp.name}|inverse of the pen's own matrix; every component still goes through the transforming parent", ok and oks, where(init), detail="self._inverted = self._transformation.inverse()",
            message=f"{tp.name}: the compensation is not the inverse of the pen's matrix, or compensated components bypass the parent pen")
     # matrix build order
